@@ -421,13 +421,14 @@ Fixpoint sem (G : graph) (p : plan) : list row :=
   | PUnion a b => sem G a ++ sem G b
   end.
 
-(** ** The engine as it is: stacked filters
-    [FilterOperator::next] evaluates its predicate on *every* physical row of the chunk it gets
-    ([total_row_count]) and *replaces* the chunk's selection vector, and it drops a chunk whose
-    selection becomes empty.  So with a Filter directly on a Filter the inner predicate only decides
-    whether the chunk survives.  [semq] returns (visible rows, physical rows of the chunk); it is
-    [sem] wherever no Filter sits directly on a Filter ([no_stack], proved in ProofsOptPush), and it
-    is what the check compares the engine's rows with — for results that fit one 2048-row chunk. *)
+(** ** The engine as it is: selection vectors under stacked filters
+    [FilterOperator::next] (grafeo-core execution/operators/filter.rs) does not copy rows: it
+    evaluates its predicate on the rows of the chunk it gets that are still *selected* and narrows
+    the chunk's selection vector ([SelectionVector::filter] on the existing selection, df57ccb); a
+    chunk whose selection becomes empty is dropped.  [semq] returns (visible rows, physical rows of
+    the chunk) for results that fit one 2048-row chunk; every other operator flattens.  [sem_e] is
+    what the check compares the engine's rows with; it is [sem] for every plan
+    ([sem_e_sem], ProofsOptTop). *)
 Fixpoint semq (G : graph) (p : plan) : list row * list row :=
   let same (l : list row) := (l, l) in
   match p with
@@ -438,9 +439,9 @@ Fixpoint semq (G : graph) (p : plan) : list row * list row :=
   | PExpand f t ev d ty inp => same (flat_map (expand_row G f t ev d ty) (fst (semq G inp)))
   | PFilter e inp =>
       let '(vis, ph) := semq G inp in
-      match vis with
+      match filter (passes G e) vis with
       | [] => ([], [])
-      | _ => (filter (passes G e) ph, ph)
+      | vis' => (vis', ph)
       end
   | PProject items inp => same (map (project_row G items) (fst (semq G inp)))
   | PReturn items _ inp => same (map (project_row G items) (fst (semq G inp)))
@@ -455,6 +456,39 @@ Fixpoint semq (G : graph) (p : plan) : list row * list row :=
   end.
 
 Definition sem_e (G : graph) (p : plan) : list row := fst (semq G p).
+
+(** *** before df57ccb (finding C09-K3 = C11-K1, repaired)
+    [FilterOperator::next] evaluated its predicate on *every* physical row of the chunk
+    ([total_row_count]) and *replaced* the selection vector.  So with a Filter directly on a Filter
+    the inner predicate only decided whether the chunk survived.  [sem_e_pre] is [sem] wherever no
+    Filter sits directly on a Filter ([no_stack]); push-down creates and removes such stacks. *)
+Fixpoint semq_pre (G : graph) (p : plan) : list row * list row :=
+  let same (l : list row) := (l, l) in
+  match p with
+  | PEmpty => same []
+  | PScan x l => same (map (fun n => [(x, VNode n)]) (scan_nodes G l))
+  | PScanIn x l inp =>
+      same (flat_map (fun r => map (fun n => r ++ [(x, VNode n)]) (scan_nodes G l)) (fst (semq_pre G inp)))
+  | PExpand f t ev d ty inp => same (flat_map (expand_row G f t ev d ty) (fst (semq_pre G inp)))
+  | PFilter e inp =>
+      let '(vis, ph) := semq_pre G inp in
+      match vis with
+      | [] => ([], [])
+      | _ => (filter (passes G e) ph, ph)
+      end
+  | PProject items inp => same (map (project_row G items) (fst (semq_pre G inp)))
+  | PReturn items _ inp => same (map (project_row G items) (fst (semq_pre G inp)))
+  | PJoin k conds l r => same (join_rows k (schema l) (schema r) conds (fst (semq_pre G l)) (fst (semq_pre G r)))
+  | PLeftJoin l r => same (left_join_rows (schema l) (schema r) (fst (semq_pre G l)) (fst (semq_pre G r)))
+  | PAgg groups aggs inp => same (agg_rows G groups aggs (fst (semq_pre G inp)))
+  | PSort ks inp => same (sort_rows (rows_le G ks) (fst (semq_pre G inp)))
+  | PSkip n inp => same (skipn n (fst (semq_pre G inp)))
+  | PLimit n inp => same (firstn n (fst (semq_pre G inp)))
+  | PDistinct inp => same (dedup [] (fst (semq_pre G inp)))
+  | PUnion a b => same (fst (semq_pre G a) ++ fst (semq_pre G b))
+  end.
+
+Definition sem_e_pre (G : graph) (p : plan) : list row := fst (semq_pre G p).
 
 Definition is_filter (p : plan) : bool := match p with PFilter _ _ => true | _ => false end.
 
